@@ -1,3 +1,4 @@
+import SeataModel.AT.SfuGap
 import SeataModel.Driver.AT
 import SeataModel.AT.Locks
 import SeataModel.AT.KeyText
@@ -44,6 +45,20 @@ def handle (ws : List String) : String :=
      | some bs => keyTextOf (bs.map fun b => Char.ofNat b.toNat)
      | none => "bad-hex")
   | ["skip"] => "skip"      -- a case decided by the oracle on the implementation alone
+  | ["sfugap", m, matching, held1, held2] =>
+    -- a locking read with a wait option: the rows that match, the rows another transaction holds when the key
+    -- query runs and when the statement runs (comma lists, `-` for none)
+    let nums (t : String) : List Nat := if t == "-" then [] else (t.splitOn ",").filterMap (·.toNat?)
+    let mode : Option SfuGap.Mode := match m with
+      | "plain" => some .plain | "nowait" => some .nowait | "skiplocked" => some .skipLocked | _ => none
+    match mode with
+    | none => "bad-op"
+    | some md =>
+      let h1 := nums held1
+      let h2 := nums held2
+      let r := SfuGap.through SfuGap.keyMode md (nums matching) (fun x => h1.contains x) (fun x => h2.contains x)
+      let showL (l : List Nat) : String := if l.isEmpty then "-" else ",".intercalate (l.map toString)
+      s!"named={showL r.named} returned={match r.returned with | some l => showL l | none => "error"}"
   | ["sfu", e, m, r] =>
     let reply : Option Reply := if r == "lockable" then some .lockable else if r == "conflict" then some .conflict
       else if r == "failed" then some .failed else none
